@@ -77,6 +77,14 @@ def s_ds(tier, seed, out):
                     out.write("ds\t" + " ".join(pre + [op + arg, "sh:3"]) + "\n")
                     out.write("ds\t" + " ".join(pre + [op + arg[::-1]]) + "\n")
                     n += 2
+    # dense long arguments (every digit non-zero, digit sums past 255 / 65 535, lengths around 2^8 and 2^16)
+    for ln in (15, 20, 28, 29, 30, 32, 40, 57, 64, 100, 255, 256, 257, 300, 1000, 7300, 66000):
+        args = [d * ln for d in "123456789"] + ["9" * (ln - 1) + "4", "".join(rng.choice("123456789") for _ in range(ln))]
+        for arg in (args if ln <= 1000 else args[-4:]):
+            for pre in ([], ["put:0"]):
+                for op in ("put:", "fput:", "push:"):
+                    out.write("ds\t" + " ".join(pre + [op + arg]) + "\n")
+                    n += 1
     # sizes past 16-bit limits, one operation each (the answer carries the whole rendering)
     for big in (65535, 65536, 70000):
         out.write("ds\tsh:%d\n" % big)
@@ -109,7 +117,9 @@ SCRIPT_ALPHA = [_tk("d5"), _tk("d3"), _tk("t2"), _tk("o3"), _tk("z"), _tk("h"), 
                 _tk("and", dur=150), _tk("pt", dur=150), _tk("cj", dur=150), _tk("lk", dur=150),
                 _tk("e1"), _tk("e1", gap=1),
                 # tokens with an empty text (a recogniser's silence marker), with and without the hint
-                _tk(""), _tk("", nan=1), _tk("", gap=1)]
+                _tk(""), _tk("", nan=1), _tk("", gap=1),
+                # a full stop glued to a closer, to a blank, doubled: only a token that trims to exactly "." is the period
+                _tk(".\""), _tk(".)"), _tk(". "), _tk("..")]
 
 
 def render_tokens(specs):
@@ -203,7 +213,14 @@ _OWN = {"en": ["point"], "fr": ["virgule"], "es": ["coma"], "pt": ["vírgula"], 
 for _l in ORDINARY:
     ORDINARY[_l] += [w for w in _SEPWORDS if w not in _OWN[_l]]
 SEPS = [" ", " ", " ", ", ", ". ", "; ", ": ", " - ", "-", " ", "  ", "\t", " . ", "! ", "? ", " (", ") ", "\n", ".", "\u00ad", " \u200b", "\ufeff ", "\u2060", "\u2010", "\u2011", "\u2013", "\u2014", "\u00b7", "\u2027", "/", "\u2026", " \u2013 ", "\u0001", " \u0000 ", "\u001f", "\u0008 ",
-        "\u2019", " \u2018", "\u201d ", " \u201c", " \u00ab\u00a0", "\u00a0\u00bb ", "\u2032"]
+        "\u2019", " \u2018", "\u201d ", " \u201c", " \u00ab\u00a0", "\u00a0\u00bb ", "\u2032",
+        # punctuation glued to punctuation (a full stop followed by a closer is one token, not a lone period)
+        ".\" ", ".) ", ".\u00bb ", ".\u201d ", ".\u2019 ", " \".", " (.", "., ", ",. ", ".. ", " .) ", ".\u00a0", ". . ", "?! ", ".- ", " -. ",
+        # medium-sized pads of blanks around punctuation and alone (between the short runs and the very long ones)
+        " " * 8 + "." + " " * 8, " " * 9 + "," + " " * 9, " " * 12 + ";" + " " * 12, " " * 8 + "-" + " " * 8, " " * 5, " " * 16, " " * 33,
+        "\u00a0" * 8 + "." + " " * 8, "\t" * 8 + "," + "\t" * 8,
+        # format characters alone and between blanks
+        "\ufeff", " \ufeff ", "\u200b ", " \u2060 ", "\u200d", " \u00ad ", "\u061c ", "\u180e "]
 DECSEP = {"en": "point", "fr": "virgule", "es": "coma", "pt": "vírgula", "it": "virgola", "de": "Komma", "nl": "komma"}
 
 _bank_cache = {}
@@ -252,7 +269,8 @@ def random_text(rng, lang, k, phrases=None):
     parts = []
     for i, w in enumerate(ws):
         if i:
-            parts.append(rng.choice(SEPS))
+            # the pool of odd separators keeps growing: keep numbers of several words frequent
+            parts.append(" " if rng.chance(2, 5) else rng.choice(SEPS))
         parts.append(recase(rng, w))
     if rng.chance(1, 6):
         parts.append(rng.choice(SEPS))
@@ -326,6 +344,15 @@ def s_lookup(tier, seed, out):
     codes = [""] + list(alpha) + [a + b for a in alpha for b in alpha]
     codes += ["EN", "En", "eN", "FR", "Fr", "DE", "De", "ES", "IT", "NL", "PT", "Pt", "pT", "eng", "fra", "deu", "por",
               "en ", " en", "en-US", "pt-BR", "1", "12", "e1", "日本", "english", "x" * 50, "en\n", "é"]
+    # every code wrapped in characters a caller's string may carry unnoticed (BOM, zero-width and soft characters, every kind
+    # of blank, line ends, controls, quotes, punctuation), before, after, around and doubled; look-alike spellings
+    affixes = ["\ufeff", "\u200b", "\u200c", "\u200d", "\u2060", "\u00ad", "\u00a0", "\u3000", "\u2028", "\u0085", "\t", "\n", "\r",
+               "\r\n", "\u0000", "\u0001", "\u001f", "\u007f", ".", "-", "_", "/", "\"", "'", "\u2019", ",", ";", ":", "(", "\u0301", "\ufe0f"]
+    for c in ("en", "fr", "es", "pt", "it", "de", "nl"):
+        for x in affixes:
+            codes += [x + c, c + x, x + c + x, x + x + c, c + x + x, c[0] + x + c[1]]
+        codes += [c + c, c + "_" + c.upper(), c.upper() + "-" + c, c[0].upper() + c[1], c[0] + c[1].upper()]
+    codes += ["\uff45\uff4e", "e\uff4e", "\u0131t", "\u0130t", "\u0130T", "e\u017f", "\ufb01", "\u0133", "d\u0435", "\u0435n", "n\u217c", "\u24d4\u24dd"]
     for c in codes:
         out.write("lookup\t%s\n" % esc(c))
         n += 1
